@@ -7,3 +7,4 @@ INVARIANT FactsWellKeyed
 INVARIANT BarriersOK
 INVARIANT SnapshotsOK
 CHECK_DEADLOCK FALSE
+INVARIANT AnswersAreSLD
